@@ -66,7 +66,7 @@ def shards(tier):
     trip = [trip[(i * 50 + i) % len(trip)] for i in range(6 if tier == "quick" else 40)]
     for i, v in enumerate(trip):
         out.append({"v": list(v), "vk": "fi"[i % 2], "k": k, "part": "idx"}); k += 1
-    for akind in ["b", "i", "f", "O", "f4", "i4", "i1", "u1"]:
+    for akind in ["b", "i", "f", "O", "f4", "i4", "i1", "u1", "u8"]:
         out.append({"part": "cast", "akind": akind})
     for v in ([[("i", "shuf"), ("O", "inc")], [("f", "dec"), ("i", "shuf"), ("O", "shuf")]]):
         out.append({"v": v, "vk": "f", "k": 1, "part": "ndmask"})
